@@ -627,11 +627,15 @@ def install_models(M):
     X['_ZNSt13basic_fstreamIcSt11char_traitsIcEED1Ev'] = lambda s: None
     X['_ZNSt13basic_fstreamIcSt11char_traitsIcEED2Ev'] = lambda s: None
     X['_ZNSo5writeEPKcl'] = ostream_write
+    X['_ZNSt13basic_filebufIcSt11char_traitsIcEED2Ev'] = lambda s: None
+    X['_ZNSt8ios_baseD2Ev'] = lambda s: None
     def file_size():
         f = M.extra.get('lastfile')
         return len(f) if f is not None else -1 & 0xffffffffffffffff
     def file_byte(i):
         f = M.extra.get('lastfile'); i = M.concretize(i)
         if f is None or i >= len(f): raise Violation('harness', 'vp_file_byte out of range')
-        return f[i]
+        v = f[i]
+        if is_sym(v): return z3.ZeroExt(24, v) if v.size() == 8 else v
+        return v & 0xff
     X['vp_file_size'] = file_size; X['vp_file_byte'] = file_byte
